@@ -57,6 +57,7 @@ type c10Plan struct {
 	Cancel  int        `json:"cancel"`            // -1: never; k: at the k-th scheduling step (0 = before the lookup starts)
 	Both    bool       `json:"both,omitempty"`    // at the cancel step also release a query in the same instant
 	Dead    bool       `json:"deadtab,omitempty"` // the table was closed before the lookup (shutdown race)
+	Stall   int        `json:"stall,omitempty"`   // k > 0: at the k-th scheduling step every outstanding peer stays silent for another ten seconds (of the bubble's clock) before the next reply is released
 }
 
 func genC10Plan(t *rapid.T) c10Plan {
@@ -92,6 +93,9 @@ func genC10Plan(t *rapid.T) c10Plan {
 		}
 	}
 	p.Choices = rapid.SliceOfN(rapid.IntRange(0, 5), 0, 24).Draw(t, "choices")
+	if rapid.IntRange(0, 3).Draw(t, "withStall") == 0 {
+		p.Stall = rapid.IntRange(1, 12).Draw(t, "stall")
+	}
 	if rapid.IntRange(0, 3).Draw(t, "withCancel") == 0 {
 		p.Cancel = rapid.IntRange(0, 30).Draw(t, "cancel")
 		p.Both = rapid.Bool().Draw(t, "both")
@@ -440,6 +444,25 @@ func c10Body(p c10Plan, c *stats.Case, sink *errSink) {
 		}
 		if np >= 2 {
 			multiOrder = true
+		}
+		if step == p.Stall {
+			// slow peers: time passes while queries are outstanding. Whatever timers the engine arms, the bounds
+			// (checked by the query function whenever a query starts, and below) hold afterwards as before.
+			time.Sleep(10 * time.Second)
+			synctest.Wait()
+			if isDone() {
+				r.lock()
+				left := len(r.parked)
+				r.unlock()
+				if left > 0 {
+					sink.add(fmt.Errorf("the lookup returned while %d of its queries were still running (peers silent for ten seconds)", left))
+				}
+				break
+			}
+			if sink.first() != nil {
+				break
+			}
+			c.NT("peers-silent-for-ten-seconds-with-queries-outstanding")
 		}
 		release := func() {
 			ch := 0
